@@ -88,14 +88,20 @@ def ord15(P, R, L):
             R.check("ORD-15", DESTROY + "|remove-after-lock", bool(lk) and any(k[0] for k in oks), r.where(),
                     "every removal in destroy_database runs only over the success edge of lock_file", "; ".join(k[1] for k in oks))
         # removals of database files (not the lock file itself / root dir) happen while the lock is still held
-        drops = [c for c in d.calls() if c.name == "std::mem::drop" and not d.is_cleanup(c.bb)
+        drops = [(c.bb, c.target, c.line) for c in d.calls() if c.name == "std::mem::drop" and not d.is_cleanup(c.bb) and c.target is not None
                  and any(x.kind == "call" and x.name == LOCK_FILE for x in origins(d, c.args[0]))]
-        for r in rms:
-            if r.declared_name != FS + "remove_dir_all":
-                continue
-            ok = not any(r.bb in d.reachable(x.target) for x in drops if x.target is not None)
-            R.check("ORD-15", DESTROY + "|data-removed-while-locked", ok, r.where(),
-                    "the WAL and table directories are removed before the lock is released", "")
+        # scope-end / `let _ =` drops of the FileLock (MIR drop terminators on normal flow)
+        for bb in range(d.n):
+            t = d.term(bb)
+            if t["k"] == "drop" and not d.is_cleanup(bb) and "fs::traits::FileLock" in (t.get("ty") or "") and "Result<" not in (t.get("ty") or ""):
+                drops.append((bb, t["target"], t.get("line")))
+        in_loop_rm = [r for r in rms if r.declared_name == FS + "remove_file" and in_cycle(d, r.bb)]
+        for r in [x for x in rms if x.declared_name == FS + "remove_dir_all"] + in_loop_rm:
+            early = [ln for (bb, tg, ln) in drops if r.bb in d.reachable(tg)]
+            R.check("ORD-15", DESTROY + "|data-removed-while-locked", not early, r.where(),
+                    "the WAL directory, the table directory and the files of the root directory are removed while the lock is still held",
+                    "the FileLock is released at line(s) %s before this removal" % early if early else "lock released only after the data is gone")
+        R.check("ORD-15", DESTROY + "|lock-release-sites", bool(drops), K.where(d), "the lock taken by destroy_database is released explicitly or at scope end", "%d release sites" % len(drops))
 
 
 def own6(P, R, L):
